@@ -415,7 +415,11 @@ static void vthread_main(void) {
 static long wd_last = -1;
 static void on_alarm(int sig) {
   (void)sig;
-  if (!sched_on) { wd_last = -1; return; }
+  if (!sched_on) {          // quiescence phase: no scheduling points at all; its checks take a second or two of CPU time
+    static int off_ticks = 0; wd_last = -1;
+    if (++off_ticks >= 6) { printf("V livelock t%d the quiescence phase (free everything, collect) used 60 seconds of CPU time: a loop inside the allocator\nEND steps=%ld viol=%ld\n", cur, steps, nviol + 1); fflush(stdout); _exit(5); }
+    return;
+  }
   if (steps == wd_last) { printf("V livelock t%d made no atomic step during 10 seconds of CPU time at step %ld (a loop inside the allocator without a scheduling point)\nEND steps=%ld viol=%ld\n", cur, steps, steps, nviol + 1); fflush(stdout); _exit(5); }
   wd_last = steps;
 }
